@@ -1054,7 +1054,7 @@ func init() {
 	run.Register(&run.Prop{
 		ID: "C07", Level: "exploration",
 		Rule: func(tier string) string {
-			return "two monitors. (in-process, hook H1, handlers: bundled example store and a recording double alternating) complete boundary-argument sweep of index/count/limit/score arithmetic (12x12 grids of {-2^63..2^63-1} for GETRANGE/SUBSTR/LRANGE/ZRANGE/ZREVRANGE, LIMIT offset x count grids, 12x12 score-bound grids, extreme ints/floats, empty and wrong-type keys) on populated and missing keys, in batches of 60 requests; then seeded pipelines (C03), hostile streams (C06), top-level values and malformed handler results (C04) ending in EOF or reset. Oracle: no panic reaches the wrapper around the connection loop, the loop returns, the connection is closed and deregistered, replies are well-framed, sweeps stay in sync to a trailing ECHO. (process level) sessions against a child running the real example server on a real TCP port under RLIMIT_AS=4GiB: an attacker connection plays one hostile case and ends by FIN, RST (SO_LINGER 0), half-close, mid-request cut or never reading; a witness connection opened before does SET/GET/ECHO around each attack and must get exact replies; in one attack class out of eight a slow-reading witness (32 KiB receive buffer) fetches its own 8 MiB value while another client fetches a different 8 MiB value four times, and both must get exactly their own bytes; in another the attacker stores a key of 64 'a' and asks KEYS / SCAN MATCH for patterns with two dozen stars that almost match it; in another class one connection floods CONFIG SET while twelve others connect, PING and vanish in a loop and the witness does 600 exact SET/GET exchanges; a fresh dial + PING must succeed; child exit = violation. distinct = hash of stream+handler (in-process) / attack stream+ending (process level)"
+			return "two monitors. (in-process, hook H1, handlers: bundled example store and a recording double alternating) complete boundary-argument sweep of index/count/limit/score arithmetic (12x12 grids of {-2^63..2^63-1} for GETRANGE/SUBSTR/LRANGE/ZRANGE/ZREVRANGE, LIMIT offset x count grids, 12x12 score-bound grids, extreme ints/floats, empty and wrong-type keys) on populated and missing keys, in batches of 60 requests; then seeded pipelines (C03), hostile streams (C06), top-level values and malformed handler results (C04) ending in EOF or reset. Oracle: no panic reaches the wrapper around the connection loop, the loop returns, the connection is closed and deregistered, replies are well-framed, sweeps stay in sync to a trailing ECHO. (process level) sessions against a child running the real example server on a real TCP port under RLIMIT_AS=4GiB: an attacker connection plays one hostile case and ends by FIN, RST (SO_LINGER 0), half-close, mid-request cut or never reading; a witness connection opened before does SET/GET/ECHO around each attack and must get exact replies; in one attack class out of eight a slow-reading witness (32 KiB receive buffer) fetches its own 8 MiB value while another client fetches a different 8 MiB value four times, and both must get exactly their own bytes; in another the attacker stores a key of 64 'a' and asks KEYS / SCAN MATCH for patterns with two dozen stars that almost match it; in another class one connection floods CONFIG SET while twelve others connect, PING and vanish in a loop and the witness does 600 exact SET/GET exchanges; in another one connection sends 150 rounds of commands of the wrong type to a 20000-field hash, a list and a set while another writes them; in-process, four cases push 40000 elements onto a list in one request (the child watchdog's spin criterion bounds the work per request); a fresh dial + PING must succeed; child exit = violation. distinct = hash of stream+handler (in-process) / attack stream+ending (process level)"
 		},
 		Assumptions: []string{"allocation behaviour is judged under RLIMIT_AS=4GiB", "handlers other than the example store are represented by the recording double (non-panicking)"},
 		Setup: func(tier string, seed uint64) int {
